@@ -86,10 +86,12 @@ Print Assumptions fenchel_young_equality_at_gradient.
    library can evaluate both:  [veq (Ok a) (Ok b)] is equality of extended values (finite values equal
    as reals, +inf = +inf).  The trees for which f** is only the unevaluable default conjugate (Huber,
    QuadraticPerturb with a <> 0 inside a conjugate, ...) make the premise false.
-   Full statement = the same without [B e].  [B] (C08/Biconj.v) excludes scalar multiples s*f, f(s.) of a
-   functional whose CONJUGATE is flagged linear (e.g. 2 * IndicatorZero: Functional.__mul__ then builds a
-   LeftScalarMult) and QuadraticForm with both operator and vector; those are compared by the
-   correspondence (k_ccshape, k_ccval) and the 'biconj' probes only -- not refuted, not proved. *)
+   FULL STATEMENT = the same without [B e]; it is FALSE of the faithful model and of the library
+   (biconjugate_refuted below, finding defaultconj-linear-flag).  [B] (C08/Biconj.v) excludes scalar
+   multiples s*f, f(s.) of a functional whose CONJUGATE is flagged linear (Functional.__mul__ then builds
+   a LeftScalarMult; harmless for e.g. 2 * IndicatorZero, wrong when the flag comes from
+   FunctionalDefaultConvexConjugate) and QuadraticForm with both operator and vector; the harmless part of
+   the excluded set is compared by the correspondence (k_ccshape, k_ccval) and the 'biconj' probes only. *)
 Theorem biconjugate_partial :
   forall (sqrtf : R -> R), (forall a, 0 <= a -> 0 <= sqrtf a /\ sqrtf a * sqrtf a = a) ->
   forall (e e' e'' : fxR) (n : nat) (w x : list R) (vx vxx : extR),
@@ -103,3 +105,11 @@ Example B_example :
   let e : fxR := FLeft 2 (FTransl (FSep2 1 (FHuber 1) (FRight (-3) (FLp P2))) [1; 0; 2]) in
   wf 3 e /\ B e.
 Proof. exact B_example_proof. Qed.
+
+(* the unrestricted biconjugate statement is refuted: e = 2 * (<b,.> + 0) on rn(1) has e(x) = 2 but
+   e.convex_conj.convex_conj(x) = 1 at x = b = [1] *)
+Theorem biconjugate_refuted :
+  exists (e e' e'' : fxR) (x : list R) (vx vxx : extR),
+    wf 1 e /\ value sqrt 0 e [1] x = Ok vx /\ cconj [1] e = Ok e' /\ cconj [1] e' = Ok e'' /\
+    value sqrt 0 e'' [1] x = Ok vxx /\ ~ veq (Ok vxx) (Ok vx).
+Proof. exact biconj_refuted_proof. Qed.
